@@ -1,0 +1,12 @@
+//go:build verif
+
+package session
+
+// VerifState returns the current logon state of the session.
+// Verification hook: compiled only with the "verif" build tag.
+func (s *Session) VerifState() LogonState {
+	s.stateMu.RLock()
+	defer s.stateMu.RUnlock()
+
+	return s.state
+}
